@@ -99,6 +99,11 @@ def run(chk):
         alpha, pool = rng.choice(pools)
         xs = gen.sub_collection(rng, pool, rng.randint(1, 14))
         add(f"symdel|E({alpha})-sub", xs, rng.randint(1, 4))
+    # clone expansions: few distinct strings, many copies (more positions than distinct deletion variants)
+    for _ in range(12 if not thorough else 120):
+        base = rng.choice([["CASSF"], ["A"], ["CASSF", "CASSL"], ["AC", "AD", "A"], gen.sub_collection(rng, pools[0][1], 3)])
+        xs = [rng.choice(base) for _ in range(rng.choice([6, 8, 15, 30, 60]))]
+        add("symdel|clone-expansion", xs, rng.choice([1, 1, 2]), model=len(xs) <= 15)
     # repertoires (oracle only for the big ones)
     for _ in range(25 if not thorough else 150):
         n = rng.choice([1, 2, 5, 20, 60, 120] if not thorough else [5, 50, 200, 600])
